@@ -190,7 +190,8 @@ def intoC (E : Ext) (dyn : Val â†’ Except Exc Val) : Conv â†’ Val â†’ Except Exc
     match items with
     | .error e => .error e
     | .ok xs =>
-      (exMapM (intoC E dyn vc) xs).map fun ys => if kind == "tuple" then .tuple ys else .list ys
+      -- an undeclared (`Any`) element type: the converter of the element's runtime type (`dynElem`), as for mappings
+      (exMapM (anyOr E dyn vc (intoC E dyn vc)) xs).map fun ys => if kind == "tuple" then .tuple ys else .list ys
   | .cond inner _ _, v => intoC E dyn inner v
   | .enum name members _, v =>
     match v with
@@ -230,9 +231,9 @@ def intoDynF (E : Ext) (classes : List (String Ã— Conv)) (enums : List (String Ã
     let dyn := intoDynF E classes enums n
     match v with
     | .none | .bool _ | .int _ | .float _ | .complex _ _ | .str _ | .bytes _ | .bytearray _ => .ok v
-    | .list xs => (exMapM dyn xs).map .list
-    | .tuple xs => (exMapM dyn xs).map .tuple
-    | .set xs | .frozenset xs | .deque xs => (exMapM dyn xs).map .list
+    | .list xs => (exMapM (dynElem E dyn) xs).map .list
+    | .tuple xs => (exMapM (dynElem E dyn) xs).map .tuple
+    | .set xs | .frozenset xs | .deque xs => (exMapM (dynElem E dyn) xs).map .list
     | .dict kvs | .mapOf _ kvs =>
       let one := fun (kv : Val Ã— Val) =>
         match dynElem E dyn kv.1 with
